@@ -209,6 +209,19 @@ def fresh(n: int, comp: Any, known_ids: Sequence[int], values: np.ndarray):
     return g
 
 
+def fresh_pristine(n: int, comp: Any, known_ids: Sequence[int], values: np.ndarray):
+    """The no-history oracle computed in a *fresh process*: the package's process state (memos, module-level
+    caches, lazily built tables) is put aside, the fresh object is computed on pristine state, and the
+    current process state is put back.  Costs ~2-3 ms, so callers sample it."""
+    from . import seams
+    state = seams.capture_process_state()
+    seams.apply_process_state(None)
+    try:
+        return fresh(n, comp, known_ids, values)
+    finally:
+        seams.apply_process_state(state)
+
+
 def tabulate(game: Any) -> np.ndarray:
     """Values of a complete game object (table or graph) as a vector."""
     return np.array(game.get_values(), dtype=np.float64)
